@@ -134,10 +134,20 @@ def tracker_fields(t, qr=None):
             "write": int(t.write), "total_size": int(t.total_size), "contracted_size": int(t.contracted_size)}
 
 
+def shape_of(nodes, edges, sizes, output):
+    """Label-free view of a hypergraph: which edge survives a merge is representation freedom, so edges are
+    described by (incident nodes, size, is-output) and nodes by the multiset of their edge sizes."""
+    sz = dict(sizes)
+    out = set(output)
+    return {"nodes": sorted([k, sorted(sz[e] for e in v)] for k, v in nodes),
+            "edges": sorted([sorted(v), sz[e], e in out] for e, v in edges)}
+
+
 def canon_hg(hg, us):
-    return {"nodes": sorted([int(k), sorted(us[e] for e in v)] for k, v in hg.nodes.items()),
-            "edges": sorted([us[e], sorted(int(x) for x in v)] for e, v in hg.edges.items()),
-            "sizes": sorted([us[e], int(v)] for e, v in hg.size_dict.items() if e in us)}
+    return shape_of([[int(k), [us[e] for e in v]] for k, v in hg.nodes.items()],
+                    [[us[e], [int(x) for x in v]] for e, v in hg.edges.items()],
+                    [[us[e], int(v)] for e, v in hg.size_dict.items() if e in us],
+                    [us[e] for e in hg.output])
 
 
 def replay_real(net, tree, order, chi, late):
@@ -175,14 +185,12 @@ def replay_real(net, tree, order, chi, late):
     return init, steps, tracker_fields(tracker, qr), maxsz, tracker_fields(tracker)
 
 
-def model_steps(resp):
+def model_steps(resp, output):
     out = []
     for s in resp["steps"]:
         h = s["hg"]
         out.append({"tracker": s["tracker"], "candidate": s["candidate"],
-                    "hg": {"nodes": sorted([k, sorted(v)] for k, v in h["nodes"]),
-                           "edges": sorted([k, sorted(v)] for k, v in h["edges"]),
-                           "sizes": sorted([k, v] for k, v in h["sizes"])}})
+                    "hg": shape_of(h["nodes"], h["edges"], h["sizes"], output)})
     return out
 
 
@@ -322,7 +330,7 @@ def correspond(ctx, drv, case, runs, path):
         r = drv.call("c20.stats", net=case["net"], chi=chi, late=case["late"], path=path)
         ctx.traces += 1
         good = "error" not in r and r["init"] == init and r["final"] == fin and r["one_shot"] == fin and \
-            model_steps(r) == steps
+            model_steps(r, case["net"]["output"]) == steps
         if not good:
             ctx.corr_broken("compressed_contract_stats differs from HG.compressedStats (chi=%s)" % name,
                             {"case": case, "chi": chi})
@@ -340,8 +348,9 @@ def check_case(ctx, drv, case):
     ctx.count("N:%d" % len(net.inputs))
     truncated = [nm for nm in ("1", "2", "4", "16") if api[nm] != api["huge"]]
     ctx.count("caps_that_truncate", len(truncated))
-    merged = any(len(s["hg"]["edges"]) < len(set(e for t in net.inputs for e in t)) - 0 and
-                 any(v != net.sizes[k] for k, v in s["hg"]["sizes"]) for s in runs["huge"][2])
+    nedges0 = len(set(e for t in net.inputs for e in t))
+    merged = any(len(s["hg"]["edges"]) < nedges0 and len(s["hg"]["nodes"]) > 1 and
+                 any(sz not in net.sizes.values() for _, sz, _ in s["hg"]["edges"]) for s in runs["huge"][2])
     ctx.count("multibond_merged", 1 if merged else 0)
     ctx.count("dangling_cases", 1 if reduced_in_leaf(net) else 0)
     nontrivial = len(net.inputs) >= 3 and (bool(truncated) or merged or "hyper" in feats)
